@@ -33,26 +33,33 @@ MAX_ENUM = 120000
 def gen_case(rng, tier):
     cfg = TIERS[tier]
     mode = rng.choice(["planted", "planted", "noisy", "noisy", "wild", "edited", "edited", "homozygous",
-                       "mismatch", "mismatch", "crowded", "crowded"])
+                       "mismatch", "mismatch", "crowded", "crowded", "repulsion"])
     r = rng.random()
-    if mode == "crowded":
+    if mode in ("crowded", "repulsion"):
         r = max(r, 0.36)  # needs a catalogue with multi-allelic sites
     if r < 0.35:
         gene = {"kind": "toy", "genome": rng.choice(["hg19", "hg38"])}
     elif r < 0.92 or not cfg["shipped"]:
-        gene = {"kind": "world", "world": SL.gen_stage_world(rng, n_variants=rng.choice([4, 5, 6]), sibling_alts=(mode == "crowded" or rng.random() < 0.3))}
+        gene = {"kind": "world", "world": SL.gen_stage_world(rng, n_variants=rng.choice([4, 5, 6]), sibling_alts=(mode in ("crowded", "repulsion") or rng.random() < 0.3))}
     else:
         gene = {"kind": "shipped", "name": rng.choice(cfg["shipped"]), "genome": "hg19"}
     return {"gene": gene, "seed": rng.randint(0, 10**9), "mode": mode,
             "depth": rng.choice([6, 8, 10, 20]), "max_copies": rng.choice([1, 2, 2, 3]), "phase": rng.random() < 0.3,
             # how many refinements per candidate are asked for (max_minor_solutions)
-            "max_solutions": rng.choice([1, 1, 1, 2, 3])}
+            "max_solutions": rng.choice([1, 1, 1, 2, 2])}
+
+
+def _tame(case):
+    # (with phase records the model has thousands of equivalent phase assignments: one refinement only)
+    if case["phase"]:
+        case["max_solutions"] = 1
+    return case
 
 
 def gen_plan(rng, tier, i, seed):
     cfg = TIERS[tier]
     return {"segments": [{"hashseed": rng.choice([0, 1, 2, 3]),
-                          "cases": [gen_case(rng, tier) for _ in range(cfg["cases"])],
+                          "cases": [_tame(gen_case(rng, tier)) for _ in range(cfg["cases"])],
                           "advs": [rng.randint(0, 10**9) for _ in range(cfg["advs"])],
                           "jitter": rng.randint(0, 10**9), "fault_seed": rng.randint(0, 10**9)}]}
 
@@ -508,6 +515,45 @@ def run_case(case, seg, viol, stats, sample):
         ccn = list(cn) + ["1"]
         cpl = list(planted) + [rng.choice([(a.name, sorted(a.minors)[0]) for a in gene.alleles.values() if a.cn_config == "1"])]
         companion = (ccn, cpl)
+    if mode == "repulsion":
+        # three copies of ONE sub-allele; a companion candidate brings two catalogued alternatives of one site
+        # into the pool, the reads show each of them on one copy's worth of reads and the reference on the
+        # third: two copies of the same sub-allele have to gain different variants
+        by_site = {}
+        for a_ in gene.alleles.values():
+            if a_.cn_config != "1":
+                continue
+            for mi_ in sorted(a_.minors):
+                for m in SL.allele_muts(gene, a_.name, mi_):
+                    if ">" in m.op and len(m.op) == 3:
+                        by_site.setdefault(m.pos, {}).setdefault(m.op, (a_.name, mi_))
+        pick = None
+        for pos_, ops_ in sorted(by_site.items()):
+            if len(ops_) < 2:
+                continue
+            (op1, src1), (op2, src2) = sorted(ops_.items())[:2]
+            for a_ in sorted(gene.alleles.values(), key=lambda x: x.name):
+                if a_.cn_config != "1" or a_.name in (src1[0], src2[0]) or not gene.has_coverage(a_.name, pos_):
+                    continue
+                mi_ = sorted(a_.minors)[0]
+                if all(m.pos != pos_ for m in SL.allele_muts(gene, a_.name, mi_)):
+                    pick = (a_.name, mi_, pos_, op1, op2, src1, src2)
+                    break
+            if pick:
+                break
+        if pick:
+            an_, mi_, pos_, op1, op2, src1, src2 = pick
+            del cn[:]
+            cn.extend(["1", "1", "1"])
+            del planted[:]
+            planted.extend([(an_, mi_)] * 3)
+            D = case["depth"]
+            table = SL.planted_table(gene, planted, D)
+            table[pos_] = {"_": D, op1: D, op2: D}
+            companion = (["1", "1"], [src1, src2])
+            phases, profile = None, Profile("test", phase=False)
+            case = dict(case, phase=False)
+            stats["repulsion_cases"] = stats.get("repulsion_cases", 0) + 1
     stats["cases"] += 1
     detail0 = {"gene": gname, "structure": cn, "planted": planted, "mode": mode, "phase": case["phase"],
                "companion": companion, "companion_first": companion_first}
